@@ -378,7 +378,7 @@ class Module(AuxDataContainer):
     ) -> None:
         if isinstance(node, Symbol):
             self._symbol_name_index[node.name].add(node)
-            if node.referent:
+            if node.referent is not None:
                 self._symbol_referent_index[node.referent].add(node)
 
     def _index_discard(
@@ -390,7 +390,7 @@ class Module(AuxDataContainer):
             if not symbol_set:
                 del self._symbol_name_index[node.name]
 
-            if node.referent:
+            if node.referent is not None:
                 symbol_set = self._symbol_referent_index[node.referent]
                 symbol_set.discard(node)
                 if not symbol_set:
